@@ -8,7 +8,7 @@
    of an expression is part of the specification: "evaluating the mapping expressions"), and the canonical comparisons
    defined here.  It calls none of the model's access paths, neither `cc / rebuild / update_vals` nor `scope_eqb`. *)
 From Coq Require Import ZArith NArith QArith Bool List.
-Require Import QV.common.Util QV.C13.Model QV.C13.Pure QV.C13.Spec QV.C13.SpecChange QV.C13.Heap QV.C13.HeapCC QV.C13.HeapCheck
+Require Import QV.common.Util QV.C13.Model QV.C13.Pure QV.C13.Spec QV.C13.SpecChange QV.C13.SpecLazy QV.C13.Heap QV.C13.HeapCC QV.C13.HeapCheck
                QV.C13.TEq.
 Import ListNotations.
 
@@ -170,7 +170,12 @@ Definition spec_obs (s : scope) (o : op) (b : obs) : bool :=
                 | Some v => result_eqb Qeq_bool r (Ok v)
                 | None => result_eqb Qeq_bool r (Err EMissing)
                 end
-      | Err _ => if mem x (domain s) then true else result_eqb Qeq_bool r (Err EMissing)
+      (* the scope does not denote a whole mapping (round 6): a lookup that returns must return the value of that one name
+         (SpecLazy.value_at; C13_lookup_partial); which call raises is not judged for a name of the domain *)
+      | Err _ => match r with
+                 | Ok v => value_right s x v
+                 | Err _ => if mem x (domain s) then true else result_eqb Qeq_bool r (Err EMissing)
+                 end
       end
   | OContains x, BBool r => Bool.eqb r (mem x (domain s))
   | OIter, BKeys r | OKeys, BKeys r =>
@@ -187,7 +192,8 @@ Definition spec_obs (s : scope) (o : op) (b : obs) : bool :=
       match den, r with
       | Ok d, Ok d' => dict_seq_eqb d d'
       | Ok _, Err _ => false
-      | Err _, _ => true
+      | Err _, Ok d' => entries_right s d' && keys_eqb (map fst d') (domain s)    (* round 6: entry by entry *)
+      | Err _, Err _ => true
       end
   | OVol, BKeys r =>
       match r with
